@@ -36,10 +36,14 @@ Proof. differ. Qed.
 Definition w_or_values := [EMvb ["a"; "b"] (EOr [EValues [ENil; I 2]; I 5]) [EPrim PList [EVar "a"; EVar "b"]]].
 Lemma or_values_refuted : fst (runM 60 w_or_values) <> fst (runS 60 w_or_values) /\ guardb 60 w_or_values = false.
 Proof. differ. Qed.
-(* (dotimes (i -1 i)) : the variable ends as the count, not as the number of iterations *)
+(* repaired (repo_fixes/C01-7): (dotimes (i -1 i)) => 0, the number of iterations, in every mode *)
 Definition w_dotimes_neg := [EDotimes "i" (I (-1)) (Some (EVar "i")) []].
-Lemma dotimes_negative_refuted : fst (runM 60 w_dotimes_neg) <> fst (runS 60 w_dotimes_neg) /\ guardb 60 w_dotimes_neg = false.
-Proof. differ. Qed.
+Example dotimes_negative_count_zero :
+  forallb (fun m => match fst (run m 60 w_dotimes_neg) with Ok (VInt 0) => true | _ => false end) [Slip; Ref; Chk] = true.
+Proof. vm_compute; reflexivity. Qed.
+(* for every count: after the loop the variable holds the number of iterations made *)
+Lemma dotimes_iterations : forall k, Z.max k 0 = Z.of_nat (List.length (seq 0 (Z.to_nat k))).
+Proof. intros k. rewrite seq_length. lia. Qed.
 (* (funcall (lambda (a b) (list a 'x)) 1) : too few arguments are accepted *)
 Definition w_short_args := [EFuncall (ELambda ["a"; "b"] [EPrim PList [EVar "a"; EQuote (DSym "x")]]) [I 1]].
 Lemma too_few_arguments_refuted : fst (runM 60 w_short_args) = Ok (VList [VInt 1; VSym "x"]) /\ fst (runS 60 w_short_args) = Er EArity /\ guardb 60 w_short_args = false.
